@@ -87,6 +87,7 @@ type wireItem struct {
 	delay time.Duration // minimum delay after the previous item was delivered / since enqueue
 	at    time.Duration
 	split int // chunking mode
+	tag   string
 }
 
 type box struct{ name string }
@@ -116,6 +117,9 @@ type sessionEnv struct {
 	onFeed     func(chunk []byte) // observer (after the terminal consumed a chunk)
 	termBytes  int
 	capture    bool
+	// deliveredAt: when the last reply of each kind was handed to the
+	// application's console (replies queue behind each other: FIFO)
+	deliveredAt map[string]time.Duration
 }
 
 func newSessionEnv(s *simrt.Sched, res *RunResult, rows, cols int, caps simterm.Caps) *sessionEnv {
@@ -159,7 +163,7 @@ func (e *sessionEnv) termTask() {
 				e.res.Fault("reply-dropped")
 				continue
 			}
-			e.send([]byte(r.Data), d)
+			e.sendTagged([]byte(r.Data), d, r.Kind)
 		}
 		if e.onFeed != nil {
 			e.onFeed(chunk)
@@ -171,11 +175,13 @@ func (e *sessionEnv) termTask() {
 }
 
 // send queues bytes from the terminal to the application.
-func (e *sessionEnv) send(data []byte, delay time.Duration) {
+func (e *sessionEnv) send(data []byte, delay time.Duration) { e.sendTagged(data, delay, "") }
+
+func (e *sessionEnv) sendTagged(data []byte, delay time.Duration, tag string) {
 	if len(data) == 0 {
 		return
 	}
-	e.wire = append(e.wire, wireItem{data: data, delay: delay, at: e.s.Now() + delay, split: e.chunkMode})
+	e.wire = append(e.wire, wireItem{data: data, delay: delay, at: e.s.Now() + delay, split: e.chunkMode, tag: tag})
 	simrt.Notify(e.wireBox)
 }
 
@@ -214,6 +220,12 @@ func (e *sessionEnv) wireTask() {
 			if len(data) > 0 {
 				simrt.Yield("wire.chunk")
 			}
+		}
+		if it.tag != "" {
+			if e.deliveredAt == nil {
+				e.deliveredAt = map[string]time.Duration{}
+			}
+			e.deliveredAt[it.tag] = e.s.Now()
 		}
 		e.wireBusy = false
 		simrt.Notify(e.idleBox)
